@@ -189,6 +189,7 @@ def _run(spec, tier, seed, tmp, t0):
     for n, j in enumerate(jobs):
         j["pkg"] = PKG_DIR[j["pkg_short"]][1]
         j["params"] = {k: str(v) for k, v in j.get("params", {}).items()}
+        j.setdefault("timeout_ms", 10000 if tier == "quick" else 60000)
     jobmap = {j["id"]: j for j in jobs}
     ov = overlay_maps(spec.files)
     ovp = os.path.join(tmp, "overlay.json")
